@@ -456,10 +456,13 @@ C12_OPTS = {
               [_R("2001:db8:f::/48", "medium", 0)], [_R("2001:db8:f::/48", "medium", -1)], [_R("2001:db8:f::/48", "high", 0)]],
     "rdnss": [[], [_D(1800, ["2001:db8::53"])], [_D(600, ["2001:db8::53"])], [_D(1800, ["2001:db8::54"])],
               [_D(1800, ["2001:db8::53", "2001:db8::54"])], [_D(1800, ["2001:db8::53"]), _D(1800, ["2001:db8::54"])],
-              [_D(1800, ["2001:db8::54"]), _D(600, ["2001:db8::53"])], [_D(0, ["2001:db8::53"])], [_D(-1, ["2001:db8::53"])]],
+              [_D(1800, ["2001:db8::54"]), _D(600, ["2001:db8::53"])], [_D(0, ["2001:db8::53"])], [_D(-1, ["2001:db8::53"])],
+              # two options: the first differs in its number of servers, the second in lifetime / contents (each is reported)
+              [_D(1800, ["2001:db8::53", "2001:db8::54"]), _D(600, ["2001:db8::53"])], [_D(1800, ["2001:db8::53"]), _D(1800, ["2001:db8::55"])]],
     "dnssl": [[], [_S(1800, ["a.example"])], [_S(600, ["a.example"])], [_S(1800, ["b.example"])],
               [_S(1800, ["a.example", "b.example"])], [_S(1800, ["a.example"]), _S(1800, ["b.example"])],
-              [_S(0, ["a.example"])], [_S(-1, ["a.example"])]],
+              [_S(0, ["a.example"])], [_S(-1, ["a.example"])],
+              [_S(1800, ["a.example", "b.example"]), _S(600, ["c.example"])], [_S(1800, ["a.example"]), _S(1800, ["d.example"])]],
 }
 
 
